@@ -126,9 +126,9 @@ def run(ck):
     pool = ck.tlc_scripts("MetaMigrationGen", "MetaMigrationGen.cfg", num=(500 if thorough else 350) * (len(scaled) + 1), depth=60,
                           seed=ck.seed * 100 + 1, files={"MetaMigrationGenW.tla": mu.genw_module(scaled + [small])})
     # the finding's scenario from the as-is model (the repaired code must pass it as well)
-    leakpool = ck.tlc_scripts("MetaMigrationGen", "MetaMigrationGen_asis.cfg", num=400 * len(scaled), depth=40, seed=ck.seed * 100 + 2,
-                              files={"MetaMigrationGenW.tla": mu.genw_module(scaled)})
-    leakpool.sort(key=lambda b: (len(b["steps"]), json.dumps(b, sort_keys=True)))
+    leakpool = mu.all_behaviours(ck, "MetaMigrationGen", "MetaMigrationGen_asis.cfg", {"MetaMigrationGenW.tla": mu.genw_module(scaled)})
+    leakpool = list({json.dumps(b, sort_keys=True): b for b in leakpool}.values())
+    leakpool.sort(key=lambda b: (len(b["steps"]), -b["w"]["ver0"], json.dumps(b, sort_keys=True)))
     leakjobs = []
     for sw in scaled:
         key = json.dumps([sw["nA"], sw["nH"], sw["budget"]])
